@@ -201,6 +201,10 @@ bool Schema::SetDefinitionFor(const EntityUID target, const std::string& express
     if (realChange) {
       graph.UpdateFor(target);
       TriggerParse(target);
+    } else {
+      // Note: same tree, different text - token positions of the cached tree must follow the stored text
+      info.at(target).Reset();
+      ParseCst(target);
     }
     return realChange;
   }
